@@ -305,7 +305,9 @@ class Conditional(Operator):
 
     def evaluate(self, x, mapping, component, index_values):
         """Evaluate."""
-        c = self.ufl_operands[0].evaluate(x, mapping, component, index_values)
+        # The condition is scalar: component selects an entry of the
+        # (possibly tensor-valued) true and false values only
+        c = self.ufl_operands[0].evaluate(x, mapping, (), index_values)
         if c:
             a = self.ufl_operands[1]
         else:
